@@ -48,10 +48,10 @@ func newCWorld() *cWorld {
 	w.items.AddMapSymbol("tags", ast.NodeTypeAnyType, "tags")
 	w.items.AddFkSymbol("peer", w.items) // a single-valued first hop in front of a set: peer.places.*
 	w.items.MakeSymbolPublic("tags")
-	w.items.MakeSymbolPublic("name")
 	w.items.AddIdSymbol("id", ast.NodeTypeString)
 	w.nameIdx = w.items.AddUniqueIndex(w.items.AddSymbol("name", ast.NodeTypeString))
 	w.items.AddSymbol("ver", ast.NodeTypeInt64)
+	w.items.MakeSymbolPublic("name")
 	w.rolesIdx = w.items.AddSetIndex(w.items.AddSetSymbol("roles", ast.NodeTypeString))
 	symIP := w.items.AddFkSetSymbol("places", w.places)
 	symPI := w.places.AddFkSetSymbol("items", w.items)
